@@ -187,12 +187,17 @@ impl RADAU {
         // Adjust tolerances
         let expm = 2.0 / 3.0;
         let n = y.len();
+        // Transform from untouched copies: with a scalar tolerance every index refers to the
+        // same cell, so reading back what was just written would apply the map n times.
+        let rtol_in = rtol.clone();
+        let atol_in = atol.clone();
         let mut rtol = rtol;
         let mut atol = atol;
         for i in 0..n {
-            let quot = atol[i] / rtol[i];
-            rtol[i] = 0.1 * rtol[i].powf(expm);
-            atol[i] = rtol[i] * quot;
+            let quot = atol_in[i] / rtol_in[i];
+            let rtol_i = 0.1 * rtol_in[i].powf(expm);
+            rtol[i] = rtol_i;
+            atol[i] = rtol_i * quot;
         }
 
         // Newton tolerance
